@@ -98,7 +98,7 @@ func (v *FnVC) assumeTypeInvG(t Term, env *Env, depth int, g string) {
 				v.implTagFacts(pt)
 				val := v.load(env.st, v.locFromPtr(fmt.Sprintf("(ival %s)", t.S), tt))
 				f := v.typeInvFormula(ti, val, env)
-				v.assume(g, fmt.Sprintf("(=> (= (itag %s) %d) %s)", t.S, tag, f))
+				v.assumeOrdered(g, fmt.Sprintf("(=> (= (itag %s) %d) %s)", t.S, tag, f))
 			}
 		}
 		return
@@ -106,7 +106,7 @@ func (v *FnVC) assumeTypeInvG(t Term, env *Env, depth int, g string) {
 	val, invs, nn := v.invSubject(t, env)
 	for _, ti := range invs {
 		f := v.typeInvFormula(ti, val, env)
-		v.assume(g, fmt.Sprintf("(=> %s %s)", nn, f))
+		v.assumeOrdered(g, fmt.Sprintf("(=> %s %s)", nn, f))
 	}
 }
 
@@ -279,4 +279,14 @@ func (v *FnVC) assumeInvOnLoad(t Term) {
 		g := fmt.Sprintf("(< (ival %s) %s)", t.S, v.entry.alloc)
 		v.assumeTypeInvG(t, env, 1, g)
 	}
+}
+
+// assumeOrdered: g == "true" is an assumption about the function's inputs (global); g equal to the current block's
+// reachability is a program-order assumption and narrows what follows; any other g is a plain guarded fact.
+func (v *FnVC) assumeOrdered(g, f string) {
+	if g != "true" && v.curBlock != nil && g == v.reach[v.curBlock] {
+		v.narrow(f)
+		return
+	}
+	v.assume(g, f)
 }
